@@ -244,6 +244,9 @@ func checkProperty(prop, tier, repo, verif string, seed int, t0 time.Time) int {
 	if len(vcs) == 0 {
 		return fail("no contract clause is tagged with " + prop)
 	}
+	if prop == "C02" || prop == "C04" {
+		runLeafStandin(eng, prop, verif)
+	}
 	return finishCheck(eng, prop, tier, repo, verif, seed, t0, evPath, vcs, timeout, nil, nil, false)
 }
 
@@ -396,6 +399,14 @@ func finishCheck(eng *Engine, prop, tier, repo, verif string, seed int, t0 time.
 	}
 	for k, v := range extraCov {
 		ev.Coverage[k] = v
+	}
+	if standin != nil {
+		ev.Coverage["bounded_standins"] = []any{standin.cov}
+		if standin.failed {
+			violations++
+			ev.Violations = violations
+		}
+		standin = nil
 	}
 	ev.Assumptions = append(ev.Assumptions, extraAssume...)
 	sort.Strings(ev.Assumptions)
@@ -634,3 +645,51 @@ func firstLineWith(txt, sub string) string {
 }
 
 func init() { specialChecks["C05"] = checkC05 }
+
+// Bounded stand-in for the reflective leaves of the update engine (C02, C04): the real helpers are executed against a
+// reference written from the property statement for every list type (table generated from go/types on this run).
+// Its outcome is reported next to the proof obligations; it is labelled bounded and never counted as discharged.
+type standinResult struct {
+	failed bool
+	cov    map[string]any
+}
+
+var standin *standinResult
+
+func runLeafStandin(eng *Engine, prop, verif string) {
+	dir := scratchDir() + "/standin"
+	os.MkdirAll(dir+"/model", 0o755)
+	defer os.RemoveAll(dir)
+	var b strings.Builder
+	b.WriteString("package model\n\n// generated from go/types by govc on every run: every type with an UpdateList method\nfunc standinListTypes() []any {\n\treturn []any{\n")
+	n := 0
+	for _, s := range schemaUpdateLists {
+		fmt.Fprintf(&b, "\t\t&%s{},\n", s[0])
+		n++
+	}
+	for _, s := range eng.schemaOdd {
+		fmt.Fprintf(&b, "\t\t&%s{},\n", s)
+		n++
+	}
+	b.WriteString("\t}\n}\n")
+	os.WriteFile(dir+"/model/zz_standin_types_test.go", []byte(b.String()), 0o644)
+	failed, out := runReplay(verif, "model", "TestStandin_C02_Leaves", "VERIF_EXTRA_OVERLAY="+dir)
+	ran := strings.Contains(out, "STANDIN-C02") || strings.Contains(out, "--- FAIL")
+	stats := ""
+	for _, ln := range strings.Split(out, "\n") {
+		if i := strings.Index(ln, "STANDIN-C02"); i >= 0 {
+			stats = strings.TrimSpace(ln[i:])
+		}
+	}
+	standin = &standinResult{failed: failed || !ran, cov: map[string]any{
+		"functions":   "model.hashKey, Merge, updateFields, SortData, CopyNonNilDataFromItemToItem, writeAllowed, HasIdentifiers (through the per-type UpdateList methods)",
+		"bound":       "every list type with an UpdateList method (" + fmt.Sprint(n) + "); lists of three items; per type: update mentions none / each single / all-but-one / all non-key fields; two marker values per field; each update applied twice",
+		"result":      stats,
+		"counted_as":  "bounded (never added to discharged)",
+		"test":        "replay/model/zz_standin_c02_test.go TestStandin_C02_Leaves",
+	}}
+	if standin.failed {
+		rp := writeReplay(verif, prop, "standin:reflective-leaves", "property: "+prop+"\nobligation: standin:reflective-leaves (bounded stand-in, not a proof obligation)\nthe real update helpers disagree with the reference semantics:\n\n"+truncate(out, 8000))
+		fmt.Printf("VIOLATION property=%s replay=%s obligation=standin:reflective-leaves\n", prop, rp)
+	}
+}
